@@ -42,13 +42,7 @@ Theorem C02_divisor_is_max :
        (exists d, divisor_B min_u tfl tfr = Some d /\ d == Qmax (Qmax l' r') min_u) /\
        (0 <= l' -> 0 <= r' -> 0 <= min_u ->
         exists d, tf_divisor min_u tfl tfr = Some d /\ d == Qmax (Qmax l' r') min_u)).
-Proof.
-  intros tfl tfr min_u. destruct (coalesce2_cases tfl tfr) as [(A&B&C&_)|(l'&r'&Hl&Hr&_)]; [left; auto|].
-  right. exists l', r'. repeat split; auto.
-  - apply divisor_A_max; auto.
-  - apply divisor_B_max; auto.
-  - intros. apply tf_divisor_max; auto.
-Qed.
+Proof. exact divisor_is_max_full. Qed.
 Print Assumptions C02_divisor_is_max.
 
 (* the documented factor: (u_exact / max(tf_l, tf_r, minimum_u))^weight, for every POW *)
@@ -84,12 +78,7 @@ Theorem C02_product_of_parts :
     xq_eq (score_of_cols p cs) (xmul (prior_odds p) (xprod (all_terms cs))) /\
     (forall terms', Permutation (all_terms cs) terms' ->
        xq_eq (score_of_cols p cs) (xmul (prior_odds p) (xprod terms'))).
-Proof.
-  intros pow tfs p cmps outcs cs H. unfold score. rewrite H. repeat split.
-  - apply product_is_prior_times_parts.
-  - intros t' Hp. eapply xq_eq_trans; [apply product_is_prior_times_parts|].
-    apply xmul_compat; [apply xq_eq_refl|apply xprod_perm; auto].
-Qed.
+Proof. exact product_of_parts_full. Qed.
 Print Assumptions C02_product_of_parts.
 
 Theorem C02_columns_are_level_values :
@@ -98,14 +87,7 @@ Theorem C02_columns_are_level_values :
     exists i l, fired outc ls = Some i /\ nth_error ls i = Some l /\
       c_gamma c = cvv_of ls i /\ c_bf c = bf l /\
       c_tf c = if has_tf ls then Some (tf_adj pow tfs ls l (cvv_of ls i)) else None.
-Proof.
-  intros pow tfs ls outc c H. unfold cmp_eval, gamma in H.
-  destruct (fired outc ls) as [i|] eqn:Hf; cbn in H; [|discriminate].
-  destruct (fired_some _ _ _ Hf) as (l & Hn & _). exists i, l.
-  rewrite (bf_of_gamma_fired _ _ _ Hn) in H.
-  rewrite (tf_of_gamma_fired pow tfs _ _ _ Hn) in H.
-  destruct (has_tf ls); injection H as <-; cbn; auto.
-Qed.
+Proof. exact columns_are_level_values_full. Qed.
 Print Assumptions C02_columns_are_level_values.
 
 (* match_probability: the CASE (any factor infinite -> 1, else s/(1+s)) is s/(1+s) of the
@@ -164,10 +146,7 @@ Theorem C02_skeleton_equality_sound :
   forall pow, (forall a a' b b', a == a' -> b == b' -> pow a b == pow a' b') ->
   forall a b, nx_eqb a b = true ->
   forall env conds, oxq_eq (neval pow env conds a) (neval pow env conds b).
-Proof.
-  intros pow Hp a b H env conds. apply (proj1 (eqb_sound pow Hp)); auto.
-  intros c. destruct (env c) as [x|]; cbn; auto. apply xq_eq_refl.
-Qed.
+Proof. exact skeleton_equality_sound_full. Qed.
 Print Assumptions C02_skeleton_equality_sound.
 
 (* ---- over R --------------------------------------------------------------------------- *)
